@@ -1229,7 +1229,7 @@ def shrink_recover(ck, key, sig, nproc):
             return False
         if d2['kind'] == 'win' and d2['off'] >= len(raw):
             return False
-        res = run_recover_jobs([((0, 0), apply_damage(raw, d2))], ck.tmp, 1, watchdog=5.0)
+        res = run_recover_jobs([((0, 0), apply_damage(raw, d2))], ck.tmp, 1, watchdog=5.0, confirm=False)
         v = judge_recover(raw, txns, orig_view(raw, txns), d2, res[(0, 0)])
         return v[0] == 'violation' and v[1] == sig
     try:
